@@ -307,6 +307,77 @@ struct Program {
     inc_h: String,
 }
 
+/// One-line function bodies with labels at random statements and fuel-bounded guarded gotos to
+/// random labels (jumps into loop bodies give loops with several entries), after the reference
+/// generator in corpus/goto_fuzz_reference.py.
+struct GotoGen<'a> {
+    rng: &'a mut Rng,
+    labels: u32,
+}
+
+impl<'a> GotoGen<'a> {
+    fn cond(&mut self) -> String {
+        format!("(x=x*1103515245u+12345u,(x>>16)&{})", *self.rng.pick(&[1, 1, 3, 2]))
+    }
+    fn stmts(&mut self, depth: u32, inloop: bool) -> String {
+        let n = self.rng.range(1, 3);
+        (0..n).map(|_| self.stmt(depth, inloop)).collect()
+    }
+    fn stmt(&mut self, depth: u32, inloop: bool) -> String {
+        let k = self.rng.below(100);
+        let mut pre = String::new();
+        if self.rng.chance(1, 4) {
+            self.labels += 1;
+            pre = format!("L{}: ", self.labels);
+        }
+        if depth == 0 || k < 25 {
+            return pre + "s++;";
+        }
+        let d = depth - 1;
+        if k < 40 {
+            let c = self.cond();
+            return format!("{}if({}){{{}}}else{{{}}}", pre, c, self.stmts(d, inloop), self.stmts(d, inloop));
+        }
+        if k < 50 {
+            let c = self.cond();
+            return format!("{}if({}){{{}}}", pre, c, self.stmts(d, inloop));
+        }
+        if k < 65 {
+            let n = self.rng.range(1, 3);
+            return format!("{}for(i=0;i<{}&&fuel-->0;i++){{{}}}", pre, n, self.stmts(d, true));
+        }
+        if k < 78 {
+            let c = self.cond();
+            return format!("{}while({}&&fuel-->0){{{}}}", pre, c, self.stmts(d, true));
+        }
+        if k < 86 {
+            let b = self.stmts(d, true);
+            return format!("{}do{{{}}}while({}&&fuel-->0);", pre, b, self.cond());
+        }
+        if k < 91 && inloop {
+            return format!("{}if({})continue;", pre, self.cond());
+        }
+        if k < 96 && inloop {
+            return format!("{}if({})break;", pre, self.cond());
+        }
+        format!("{}if({}&&fuel-->0)goto @;", pre, self.cond())
+    }
+    /// the text of `int NAME(unsigned x) { … }` with the body on one line
+    fn function(&mut self, name: &str) -> String {
+        let depth = self.rng.range(2, 4) as u32;
+        let mut body = self.stmts(depth, false);
+        if self.labels == 0 {
+            body = body.replace("goto @;", "s+=3;");
+        } else {
+            while let Some(p) = body.find('@') {
+                let l = self.rng.range(1, self.labels as u64);
+                body.replace_range(p..p + 1, &format!("L{}", l));
+            }
+        }
+        format!("int {}(unsigned x)\n{{ int s=0,i=0,fuel=40; {} return s+i; }}", name, body)
+    }
+}
+
 fn gen_program(rng: &mut Rng) -> Program {
     let nfun = rng.range(1, 3) as usize;
     let mut g = PGen { rng, lines: vec![], cur: String::new(), nfun, uniq: 0, calls_helper: true, one_line: 0 };
@@ -349,9 +420,26 @@ fn gen_program(rng: &mut Rng) -> Program {
             g.nl("");
         }
     }
+    // a goto-style function (labels, guarded jumps into loop bodies), called a few times
+    let goto_calls: Vec<u64> = if g.rng.chance(1, 2) {
+        let text = {
+            let mut gg = GotoGen { rng: &mut *g.rng, labels: 0 };
+            gg.function("fz")
+        };
+        for l in text.lines() {
+            g.nl(l);
+        }
+        let k = g.rng.range(1, 5);
+        (0..k).map(|_| g.rng.below(1 << 30)).collect()
+    } else {
+        vec![]
+    };
     g.nl("int main(int argc, char **argv) {");
     g.nl("  int a = argc > 1 ? atoi(argv[1]) : 0; int b = argc > 2 ? atoi(argv[2]) : 0;");
     g.nl("  int r = 0;");
+    for sd in &goto_calls {
+        g.nl(&format!("  r += fz((unsigned)a * 2654435761u + (unsigned)b * 40503u + {}u) & 1;", sd));
+    }
     let mut vars = vec!["a".to_string(), "b".to_string(), "r".to_string()];
     let nf = g.nfun;
     for f in 0..nf {
@@ -617,7 +705,8 @@ fn count_line_shapes(
 }
 
 /// Named finding matcher `C08-irreducible-line-cycles`: every difference is the count of a line
-/// whose blocks, in some function, contain a loop with two entries (irreducible region). There
+/// whose blocks, in some function, contain a loop with two entries (irreducible region), and
+/// grcov's count is below llvm-cov's. There
 /// the decomposition of the arc counts into circuits is not unique: grcov enumerates elementary
 /// circuits (`look_for_circuit`, the algorithm of gcc's gcov), llvm-cov 12+ cancels cycles found
 /// by depth-first search, and the two sums can differ. (Structured C gives reducible graphs; a
@@ -646,7 +735,7 @@ fn matches_irreducible(
                 continue;
             }
             any = true;
-            if !fns.iter().any(|f| &f.file == k && f.line_irreducible(*l)) {
+            if !(*n < t.lines[l] && fns.iter().any(|f| &f.file == k && f.line_irreducible(*l))) {
                 return false;
             }
         }
@@ -810,6 +899,22 @@ fn compiled_stream(rep: &mut Report, rng: &mut Rng, reqs: &mut Vec<String>, pend
             check_compiled(rep, &c, &case, reqs, pend, false);
         }
     }
+    // confirmed witnesses of finding C08-irreducible-line-cycles (clang-compiled programs)
+    for (name, src) in [
+        ("irreducible_14113", include_str!(concat!(env!("CARGO_MANIFEST_DIR"), "/corpus/irreducible_14113.c"))),
+        ("irreducible_14150", include_str!(concat!(env!("CARGO_MANIFEST_DIR"), "/corpus/irreducible_14150.c"))),
+    ] {
+        let p = Program { main_c: src.to_string(), inc_h: "/* unused */\n".to_string() };
+        let profiles: Vec<Vec<String>> = vec![vec![]];
+        let case = json!({"op": "program", "prog_c": p.main_c, "inc_h": p.inc_h, "profiles": profiles, "corpus": name});
+        match build_and_run(&rep.workdir.join(name), &p, &profiles) {
+            Ok(c) => {
+                rep.count("program.corpus_irreducible");
+                check_compiled(rep, &c, &case, reqs, pend, false);
+            }
+            Err(e) => rep.notes.push(format!("corpus program {} not run: {}", name, e)),
+        }
+    }
     {
         let p = Program { main_c: CIRCUIT_PROG.to_string(), inc_h: "/* unused */\n".to_string() };
         let profiles: Vec<Vec<String>> = [["5", "2"], ["0", "7"], ["4", "9"], ["13", "6"]]
@@ -871,7 +976,27 @@ fn check_compiled(
     }
     let mut nontrivial = false;
     for (what, ds) in &variants {
+        let t0 = std::time::Instant::now();
         let r = run_compute(&c.gcno, ds, true);
+        // the circuit enumeration is exponential: where the native code already needs a while,
+        // the list-based model would need minutes – such cases are compared with llvm-cov only
+        let mut heavy = t0.elapsed().as_millis() > 20;
+        {
+            // … and the model's counters are function closures (one more layer per update), so a
+            // line that lives in very many blocks is slow there as well
+            let fd = run_dump(&c.gcno, ds).map(|d| dump_functions(&d)).unwrap_or_default();
+            for f in &fd {
+                let mut per_line: BTreeMap<u32, usize> = BTreeMap::new();
+                for b in &f.blocks {
+                    for l in &b.lines {
+                        *per_line.entry(*l).or_insert(0) += 1;
+                    }
+                }
+                if per_line.values().any(|&n| n > 130) {
+                    heavy = true;
+                }
+            }
+        }
         match &r {
             Ok(rs) => {
                 let ours = of_results(rs);
@@ -905,7 +1030,9 @@ fn check_compiled(
             }
         }
         // the model on the same files
-        if let Some(notes) = decode_gcno(&c.gcno) {
+        if heavy {
+            rep.count("program.model_skipped_heavy_cycle_search");
+        } else if let Some(notes) = decode_gcno(&c.gcno) {
             let gd: Option<Vec<Gcda>> = ds.iter().map(|b| decode_gcda(b)).collect();
             if let Some(gd) = gd {
                 let refs: Vec<&Gcda> = gd.iter().collect();
@@ -1234,24 +1361,10 @@ fn synthetic_llvm_cov_stream(rep: &mut Report, rng: &mut Rng, reqs: &mut Vec<Str
                 count_line_shapes(rep, "synthetic_llvm_cov", &ours, &theirs, &fd);
                 if let Some(d) = diff_gcov(&ours, &theirs) {
                     let finding = classify(&ours, &theirs, &fd);
-                    if finding == Some("C08-irreducible-line-cycles") {
-                        // Generated notes are not LLVM-produced: a difference that is confined to
-                        // lines with a two-entry loop (where the circuit decomposition is not
-                        // unique and the two tools use different searches) is measured, not a
-                        // violation. The same difference on a compiled program IS reported (named
-                        // finding C08-irreducible-line-cycles in the program stream).
-                        rep.count("synthetic_llvm_cov.differs_on_irreducible_line_only");
-                        if !rep.notes.iter().any(|n| n.starts_with("irreducible-line sample")) {
-                            rep.notes.push(format!(
-                                "irreducible-line sample (generated notes, grcov != llvm-cov): {} ; gcno={} gcda={}",
-                                d,
-                                hex(&gcno),
-                                hex(&gbytes)
-                            ));
-                        }
-                    } else {
-                        rep.fail("oracle", finding, format!("Gcno::compute differs from llvm-cov gcov on generated notes: {}", d), case);
+                    if let Some(f) = finding {
+                        rep.count(&format!("synthetic_llvm_cov.finding.{}", f));
                     }
+                    rep.fail("oracle", finding, format!("Gcno::compute differs from llvm-cov gcov on generated notes: {}", d), case);
                 }
             }
             Err(e) => rep.fail("oracle", None, format!("Gcno::compute fails on generated notes: {}", e), case),
